@@ -214,15 +214,25 @@ func (cl *cluster) pushPull(a, b *clNode, join bool) {
 		cl.learnAlive(b, x)
 	}
 	b.n.Delegate().MergeRemoteState(la, join)
-	for f := range a.knows {
-		b.knows[f] = true
-	}
+	cl.transfer(a, b)
 	for _, x := range bn {
 		cl.learnAlive(a, x)
 	}
 	a.n.Delegate().MergeRemoteState(lb, join)
-	for f := range b.knows {
-		a.knows[f] = true
+	cl.transfer(b, a)
+}
+
+// transfer: a state sync from -> to carries what from knows about the members it
+// lists (status times, left list); intents it merely buffers for unknown members
+// are not part of the exchange.
+func (cl *cluster) transfer(from, to *clNode) {
+	lists := clSnapshot(from).status
+	for f := range from.knows {
+		if i := strings.Index(f, "@"); i > 0 {
+			if _, ok := lists[f[:i]]; ok {
+				to.knows[f] = true
+			}
+		}
 	}
 }
 
@@ -296,15 +306,11 @@ func (cl *cluster) apply(act string) bool {
 				if len(ustate) > 0 {
 					b.n.Delegate().MergeRemoteState(ustate, true)
 				}
-				for fct := range a.knows {
-					b.knows[fct] = true
-				}
+				cl.transfer(a, b)
 				for _, x := range cl.aliveKnown(b) {
 					cl.learnAlive(a, x)
 				}
-				for fct := range b.knows {
-					a.knows[fct] = true
-				}
+				cl.transfer(b, a)
 				return world.EncodePushPull(nil, lb, true)
 			}), nil
 		}
@@ -380,8 +386,8 @@ func (cl *cluster) apply(act string) bool {
 		}
 	case "deliver":
 		a, b := node(f[1]), node(f[2])
-		if a == nil || b == nil || a == b || !b.up() || !cl.reachable(a, b) {
-			return false
+		if a == nil || b == nil || a == b || !b.up() || !cl.reachable(a, b) || a.view[b.name] != 1 {
+			return false // memberlist gossips only to nodes it holds alive
 		}
 		var msg string
 		for m := range a.outbox {
@@ -506,7 +512,7 @@ func (cl *cluster) enabled() []string {
 				}
 				out = append(out, fmt.Sprintf("pushpull %d %d", x.idx, y.idx))
 			}
-			if b.up() && cl.reachable(a, b) {
+			if b.up() && cl.reachable(a, b) && a.view[b.name] == 1 {
 				for _, m := range cl.sortedOutbox(a) {
 					out = append(out, fmt.Sprintf("deliver %d %d %s", a.idx, b.idx, clHash(m)))
 				}
@@ -617,8 +623,8 @@ func (cl *cluster) key() string {
 	return sb.String()
 }
 
-// closure heals the network, lets everything that is in flight arrive and
-// memberlist converge, and syncs until nothing changes; then the convergence
+// closure heals the network, lets memberlist converge and syncs all connected
+// pairs until nothing changes (messages still in flight are lost); then the convergence
 // predicate of C01/C02 is evaluated.
 func (cl *cluster) closure() {
 	for i := range cl.side {
@@ -663,22 +669,8 @@ func (cl *cluster) closure() {
 			}
 		}
 		cl.settle()
-		// everything in flight arrives
-		for _, a := range cl.nodes {
-			for _, m := range cl.sortedOutbox(a) {
-				for _, b := range cl.nodes {
-					if b != a && b.up() {
-						b.n.Delegate().NotifyMsg([]byte(m))
-						if m[0] == serf.VMsgLeave {
-							var l serf.VMessageLeave
-							serf.VDecode([]byte(m)[1:], &l)
-							b.knows[fmt.Sprintf("%s@%d", l.Node, l.LTime)] = true
-						}
-					}
-				}
-			}
-		}
-		cl.settle()
+		// whatever is still in flight is lost: the statement promises agreement after a
+		// state sync whatever was delivered, duplicated or lost before
 		for _, a := range cl.nodes {
 			for _, b := range cl.nodes {
 				if a.idx < b.idx && a.up() && b.up() && (a.view[b.name] == 1 || b.view[a.name] == 1) {
@@ -729,6 +721,14 @@ func (cl *cluster) oracle(hist []string) {
 					// the intent must have been handed to a node that is still running
 					handed := false
 					for _, y := range live {
+						if y != k && !cl.connected(k, y) {
+							continue
+						}
+						if _, lists := clSnapshot(y).status[name]; !lists {
+							// y only buffers the intent for a member it never learnt of; buffered
+							// intents are not part of state sync, so y cannot pass it on
+							continue
+						}
 						for f := range y.knows {
 							if strings.HasPrefix(f, name+"@") {
 								lt, _ := strconv.ParseUint(f[len(name)+1:], 10, 64)
